@@ -392,14 +392,15 @@ def jobs(tier, seed):
         for W in range(7, 13):
             js.append(Job(f"bp_W{W}_m2_demands0to4", W**2 * 25, _cs_chunk, (W, 2, ("solve_bp",), 5), chunk=max(1, W**2 * 25 // 256), describe="solve_bp: two piece sizes, demands 0..4"))
     # wider rolls, larger demands: degenerate column-generation steps only show up here
-    for W in (14, 16, 18, 20) + ((23,) if tier == "thorough" else ()):
+    for W in (14, 16, 18, 20, 23):
         size = W**3 * 27
         if tier == "thorough":
             js.append(Job(f"cg_W{W}_m3_demands135", size, _cs_sparse_chunk, (W, 0), describe="solve_cg: three sizes in 1..W, demands from {1,3,5}^3"))
         else:
-            b = seed % 16
-            lo, hi = size * b // 16, size * (b + 1) // 16
-            js.append(Job(f"cg_W{W}_m3_demands135_block{b}of16", hi - lo, _cs_sparse_chunk, (W, lo), describe="rotating 1/16 block (VERIF_SEED) of: three sizes in 1..W, demands from {1,3,5}^3"))
+            nb = 16 if W < 23 else 32
+            b = seed % nb
+            lo, hi = size * b // nb, size * (b + 1) // nb
+            js.append(Job(f"cg_W{W}_m3_demands135_block{b}of{nb}", hi - lo, _cs_sparse_chunk, (W, lo), describe=f"rotating 1/{nb} block (VERIF_SEED) of: three sizes in 1..W, demands from {{1,3,5}}^3"))
     js.append(Job("wide_rolls", len(wide_cases(tier == "thorough")), _wide_chunk, tier == "thorough", chunk=4, describe="roll widths 1500, 2000 (thorough: also 1501, 1503) with two piece sizes within 2 of a third of the width, demands over {1,2,3,6}^2; solve_cg and solve_bp (pricing on rolls wider than 1000 units)"))
     js.append(Job("width_sweeps_in_one_process", len(sweep_cases()), _sweep_chunk, None, chunk=1, describe="one order (two piece sizes in 1..7) solved for every roll width up to 12 and back, consecutively in one process; each answer judged on its own"))
     npf = len(perfect_cases())
